@@ -31,7 +31,7 @@ def _same_array(np, a, b, is_da):
 
 
 class DatasetOps(Contract):
-    """BOUNDED STAND-IN ONLY (never counted as proved).  For a Dataset with variables a(x), b(x, y), c(y), an integer i(x) and a 0-d s -- so
+    """BOUNDED STAND-IN ONLY (never counted as proved).  For a Dataset with variables a(x), b(x, y), c(y), an integer i(x), a t(y, x) that stores the dimensions in another order than the dataset, and a 0-d s -- so
     that some variables lack the operated dimension x -- every listed Dataset operation gives, for each variable that has
     x, exactly what the corresponding DimArray operation gives on that variable, leaves the others as they were, returns a
     Dataset satisfying the shared-axes rule (every variable's axis IS the dataset's axis object) and carries the
@@ -74,9 +74,10 @@ class DatasetOps(Contract):
             c = DimArray(np.array(env["data"]["c"], dtype=float), axes=[("y", Y.copy())])
             s = DimArray(np.array(7.5))
             i = DimArray(np.arange(len(X)) * 3 + 1, axes=[("x", X.copy())])          # an INTEGER variable (results that need floats must widen)
-            for v in (a, b, c, s, i):
+            t = DimArray(np.array(env["data"]["b"], dtype=float).T * 2 + 1, axes=[("y", Y.copy()), ("x", X.copy())])     # stores (y, x): another order than the dataset's
+            for v in (a, b, c, s, i, t):
                 v.attrs.update(VAR_ATTRS)
-            return {"a": a, "b": b, "c": c, "s": s, "i": i}
+            return {"a": a, "b": b, "c": c, "s": s, "i": i, "t": t}
         ds = Dataset()
         for k, v in variables().items():
             ds[k] = v
@@ -94,7 +95,7 @@ class DatasetOps(Contract):
         lab = X[p]
         q = [int(t) % n for t in np.asarray(env["q"])]
         new = np.asarray(env["new"], dtype=float)
-        has_x = ("a", "b", "i")
+        has_x = ("a", "b", "i", "t")
         expect = dict(ref)
         if op == "take-label":
             out = ds.take(indices=lab, axis="x")
@@ -109,11 +110,11 @@ class DatasetOps(Contract):
             out = ds.isel(x=q)
             for k in has_x: expect[k] = ref[k].isel(x=q)
         elif op == "ix":
-            out = ds.ix[p]
-            for k in has_x: expect[k] = ref[k].ix[p]
+            out = ds.ix[p]              # (the dataset's FIRST dimension, x: for a variable that is its dimension x wherever the variable stores it)
+            for k in has_x: expect[k] = ref[k].take(p, axis="x", indexing="position")
         elif op == "loc":
             out = ds.loc[lab]
-            for k in has_x: expect[k] = ref[k].loc[lab]
+            for k in has_x: expect[k] = ref[k].take(lab, axis="x")
         elif op in ("mean", "sum", "std", "var", "median"):
             out = getattr(ds, op)(axis="x")
             for k in has_x: expect[k] = getattr(ref[k], op)(axis="x")
